@@ -8,6 +8,7 @@ NOTES = {
  "C15-G": "not reported: needs an unlink inside FileSystemDataStore.Update to fail (a fault below the store-call level, outside every listed quantifier; the filesystem hook only observes)",
  "C02-H": "not reported by C02 (its quantifier has no faults); reported in the quick tier by C03 (pool phase, uneven blocks) and C19",
  "C24-J": "not reported by C24 (the MetaStore's own copy of the block metadata is what gets widened, and C24 computes the expected pruning from the metadata the MetaStore serves); reported in the quick tier by C13 (a merge that did not commit must leave the served block metadata unchanged) and C17 (MetaStore metadata vs the file's own footer)",
+ "C20-K": "not reported by C20 (a parked block worker that is un-parked while the query is being terminated takes a budget slot back and never returns it: the cursor that was closed still ends correctly; only later queries on the same engine hang, once MaxQueryConcurrency slots are gone); reported in the quick tier by C21 (the budget recheck after the parked-worker script added in the fifth wave: a follow-up query no longer reaches MaxQueryConcurrency simultaneous reads)",
  "C15-F": "not reported by C15 (needs the writer's .tmp to vanish before Close, which is not a crash point); reported in the quick tier by C16 (`failclose` op: Close returns nil for a file that was never published)",
 }
 rows = {}
@@ -29,7 +30,7 @@ def idea(seed):
     return ""
 out = []
 out.append("# Seeded changes: what the checks report\n")
-out.append("Ten realistic changes per property: `Cxx-A/B` (first session), `Cxx-C/D`, `Cxx-E/F`, `Cxx-G/H` and `Cxx-I/J` (second session; fresh sub-agents that were given only the property text — from E on also its anchored mechanisms, for G/H and I/J the hint that the obvious sites were taken — and a scratch worktree). Each compiles, passes the pinned suite and ships a demonstration test that fails with the change and passes without it (`tools/confirm_seed.sh`; see each `NOTES.md` / `meta.json`). `tools/seedtest2.sh <patch> Cxx` applies one to a scratch worktree of `/repo` and points the check at it; `/repo` itself is never touched.\n")
+out.append("Ten realistic changes per property (eleven for C06 C08 C10 C13 C14 C15 C20 C22: `Cxx-K`, a fifth wave in the third session, one change per property, same prompt as the fourth wave; their lines come from single runs of `tools/seedtest2.sh`, not from the full sweep): `Cxx-A/B` (first session), `Cxx-C/D`, `Cxx-E/F`, `Cxx-G/H` and `Cxx-I/J` (second session; fresh sub-agents that were given only the property text — from E on also its anchored mechanisms, for G/H and I/J the hint that the obvious sites were taken — and a scratch worktree). Each compiles, passes the pinned suite and ships a demonstration test that fails with the change and passes without it (`tools/confirm_seed.sh`; see each `NOTES.md` / `meta.json`). `tools/seedtest2.sh <patch> Cxx` applies one to a scratch worktree of `/repo` and points the check at it; `/repo` itself is never touched.\n")
 out.append("Last full sweep: %s, quick tier, `VERIF_SEED=1`, each seed against the check of the property it was written for (`tools/sweep_seeds.sh`; wall clock of the whole check, six sweeps in parallel).\n" % datetime.date.today().isoformat())
 out.append("| seed | own property's quick check | what the change is / note |\n|---|---|---|")
 hit = miss = na = 0
